@@ -3,7 +3,8 @@
    ONLY statements closed by `exact`, with Print Assumptions beneath each, and an Example per theorem. *)
 From Coq Require Import ZArith List Bool Sorted.
 From Mesa Require Import Generated.Tables Model.Devs Model.DevsSpec
-  Proofs.DevsProofs Proofs.DevsChunkProofs Proofs.DevsStepProofs Proofs.DevsTopProofs Proofs.DevsVizProofs Proofs.DevsVizTopProofs Proofs.DevsOrderProofs Proofs.DevsBridge.
+  Proofs.DevsProofs Proofs.DevsChunkProofs Proofs.DevsStepProofs Proofs.DevsTopProofs Proofs.DevsVizProofs Proofs.DevsVizTopProofs Proofs.DevsOrderProofs Proofs.DevsBridge
+  Model.DevsLife Proofs.DevsOnceProofs Proofs.DevsTop14Proofs Proofs.DevsLifeProofs Proofs.DevsBoundaryProofs.
 Import ListNotations.
 Open Scope Z_scope.
 
@@ -171,6 +172,39 @@ Theorem C15_chunking_of_source : forall cfg fuel st t1 t2 st1 l1 st2 l2, inv st 
 Proof. exact chunking_of_source. Qed.
 Print Assumptions C15_chunking_of_source.
 
+(* ---------------------------------------------------------------- the life cycle: reset() and setup(<a new model>) *)
+(* while a model is attached the step invariant holds, over every life cycle whose run horizons are not before the clock
+   (the step counter is the attached model's: it restarts at 0 with the new model of a setup) ... *)
+Theorem C15_lifecycle_step_invariant : forall cfg fuel ops m, c_abm cfg = true -> inv (m_st m) -> xstep_inv m ->
+  xops_ok cfg fuel m ops -> xstep_inv (xfinal cfg fuel m ops) /\ inv (m_st (xfinal cfg fuel m ops)).
+Proof. exact xstep_inv_history. Qed.
+Print Assumptions C15_lifecycle_step_invariant.
+
+(* ... so model.steps = clock after every run_until / run_for to an integer horizon, also after reset() + setup() *)
+Theorem C15_lifecycle_steps_eq_clock : forall cfg fuel ops b t st' l, c_abm cfg = true -> xops_ok cfg fuel (xinit cfg b) ops ->
+  m_setup (xfinal cfg fuel (xinit cfg b) ops) = true ->
+  s_time (m_st (xfinal cfg fuel (xinit cfg b) ops)) <= t -> t mod SCALE = 0 ->
+  run_loop cfg fuel t (m_st (xfinal cfg fuel (xinit cfg b) ops)) = (st', l, true) ->
+  s_steps st' * SCALE = t /\ s_time st' = t.
+Proof. exact xsteps_eq_clock. Qed.
+Print Assumptions C15_lifecycle_steps_eq_clock.
+
+(* the boundary of the quantifier: an ABMSimulator run to a NON-integer horizon completes with a clock that is not a tick,
+   steps <> clock, and schedule_event_next_tick is then refused as a unit mismatch - which is why horizons are integers *)
+Theorem C15_boundary_non_integer_horizon : forall cfg fuel t st st' l, c_abm cfg = true -> inv st -> step_inv st ->
+  s_time st <= t -> t mod SCALE <> 0 -> run_loop cfg fuel t st = (st', l, true) ->
+  s_time st' = t /\ s_steps st' * SCALE <> s_time st' /\ s_steps st' * SCALE < t < (s_steps st' + 1) * SCALE /\
+  forall p tag h body, memz h (s_dead st') = false -> snd (do_sched cfg st' KTick 0 p tag h body) = R_UNIT.
+Proof. exact abm_non_integer_horizon. Qed.
+Print Assumptions C15_boundary_non_integer_horizon.
+
+(* an interrupted run (user exception) keeps the step invariant; resuming completes the same run *)
+Theorem C15_interrupted_state_ok : forall cfg n endt st st1 l1, inv st -> s_time st <= endt ->
+  run_loop cfg n endt st = (st1, l1, false) ->
+  inv st1 /\ s_time st <= s_time st1 <= endt /\ (c_abm cfg = true -> step_inv st -> step_inv st1).
+Proof. exact interrupted_state_ok. Qed.
+Print Assumptions C15_interrupted_state_ok.
+
 (* ---------------------------------------------------------------- non-vacuity *)
 (* an ABM history: step at tick 1 schedules a HIGH event for now and one for the next tick; a user event at
    tick 2 schedules another; pieces run_next_event, run_for 1, run_until 3, then run_until 4. *)
@@ -222,3 +256,15 @@ Proof.
   split; [apply step_inv_init; reflexivity|]. split; [apply inv_init|].
   eexists. eexists. repeat split; vm_compute; reflexivity.
 Qed.
+
+Example C15_lifecycle_example :
+  let ops := [XOp (ORunUntil 24); XReset; XSetup; XOp (ORunFor 16)] in
+  xops_ok ex_cfg 50 (xinit ex_cfg true) ops /\ m_setup (xfinal ex_cfg 50 (xinit ex_cfg true) ops) = true /\
+  s_steps (m_st (xfinal ex_cfg 50 (xinit ex_cfg true) ops)) = 2 /\ s_time (m_st (xfinal ex_cfg 50 (xinit ex_cfg true) ops)) = 16.
+Proof. cbv zeta. split; [cbn [xops_ok xop_ok]; repeat split; vm_compute; discriminate|]. repeat split; vm_compute; reflexivity. Qed.
+
+Example C15_boundary_example :
+  let r := run_loop ex_cfg 50 20 (init ex_cfg) in
+  snd r = true /\ s_time (fst (fst r)) = 20 /\ s_steps (fst (fst r)) = 2 /\ 20 mod SCALE <> 0 /\
+  snd (do_sched ex_cfg (fst (fst r)) KTick 0 PDefault 9 0 []) = R_UNIT.
+Proof. cbv zeta. repeat split; try (vm_compute; reflexivity). vm_compute. discriminate. Qed.
